@@ -58,6 +58,7 @@ func c05Inputs() []inputs.Input {
 		I("shebang", 10, 0, 0), I("svg", 40, 0, 0), I("utf8", 200, 1, 3), I("utf8", 3100, 0, 1),
 		I("csv_ragged", 4, 3, 2), I("json_trunc", 3072, 3000, 0),
 		I("tar", 100, 0, 1), I("sample", 0, 0, 1), I("sample", 0, 0, 10),
+		I("corpus", 0, 0, 3), I("corpus", 0, 0, 57), I("corpus", 300, 1, 111), I("corpus", 40, 2, 160),
 		I("text", 10000, 0, 0), I("json", 20000, 0, 0), I("random", 70000, 0, 0), I("csv_big", 2000, 0, 5),
 	}
 }
